@@ -100,7 +100,8 @@ Definition upq_eqb (a b : upq) : bool :=
 Definition put_optbytes (o : option (list N)) : list N :=
   match o with Some b => 1 :: put_bytes b | None => [0] end.
 
-Record acc := { a_viol : N; a_diff : option (list N); a_hit : bool; a_drop : bool; a_aclref : bool; a_tcp : bool; a_fwd : bool }.
+Record acc := { a_src : list (N * (N * N));      (* per IPv4 source: tokens charged so far, time of its first charge *)
+                a_viol : N; a_diff : option (list N); a_hit : bool; a_drop : bool; a_aclref : bool; a_tcp : bool; a_fwd : bool }.
 Definition first_nz (a b : N) : N := if a =? 0 then b else a.
 Definition first_some {A} (a b : option A) : option A := match a with Some _ => a | None => b end.
 
@@ -147,12 +148,30 @@ Fixpoint run_steps (rules : list Acl.rule) (rt : DnsRoute.table) (cur : list N) 
                 end
               | _ => if lenN (d_ups s) =? 0 then 0 else 2
               end in
+    (* D06 on what the implementation sent: REFUSED over UDP to a query without the cookie this
+       server issues: the charges must stay within 2*CAP + 2*RATE*(elapsed) per source *)
+    let srckey := match d_client s with Acl.A4 x => x | Acl.A6 x => x | Acl.AUnix => 0 end in
+    let charge :=
+      match d_reply s, q with
+      | Some b, Ok qq =>
+        let presented := match cookie_opt qq with Some d => if 8 <=? lenN d then Some (dropN 8 d) else None | None => None end in
+        let valid := match presented with Some p => bytes_eqb p (d_issued s) && negb (lenN p =? 0) | None => false end in
+        if negb (d_tcp s) && opt_eqb N.eqb rep_rcode (Some 5) && negb valid
+        then Bucket.cost (lenN (d_query s)) (lenN b) else 0
+      | _, _ => 0
+      end in
+    let old := match find (fun e => fst e =? srckey) (a_src a) with Some e => snd e | None => (0, d_ts s) end in
+    let total := fst old + charge in
+    let src' := if charge =? 0 then a_src a
+                else (srckey, (total, snd old)) :: filter (fun e => negb (fst e =? srckey)) (a_src a) in
+    let v4 := if 2 * Bucket.CAP + 2 * (Bucket.RATE * (d_ts s + 1 - snd old)) <? total then 4 else 0 in
     match dns_step mac c st (d_tns s) (d_ts s) (d_client s) (d_port s) (d_local s) (d_tcp s)
                    (d_query s) u id eo with
     | Ok (st', out, qs) =>
       let ok := opt_eqb bytes_eqb out (d_reply s) && list_eqb upq_eqb qs (d_ups s) in
       run_steps rules rt cur st'
-        {| a_viol := first_nz (a_viol a) (first_nz v1 (first_nz v2 v3));
+        {| a_src := src';
+           a_viol := first_nz (a_viol a) (first_nz v1 (first_nz v2 (first_nz v3 v4)));
            a_diff := first_some (a_diff a)
                        (if ok then None else Some (i :: put_optbytes out ++ lenN qs :: flat_map (fun x : upq => [fst (fst x); if snd (fst x) then 1 else 0]) qs));
            a_hit := a_hit a || (match q with
@@ -169,7 +188,8 @@ Fixpoint run_steps (rules : list Acl.rule) (rt : DnsRoute.table) (cur : list N) 
         (i + 1) rest
     | _ =>
       (* the model aborts: reported as a disagreement (D01_total says it cannot) *)
-      {| a_viol := first_nz (a_viol a) (first_nz v1 (first_nz v2 v3));
+      {| a_src := src';
+         a_viol := first_nz (a_viol a) (first_nz v1 (first_nz v2 (first_nz v3 v4)));
          a_diff := first_some (a_diff a) (Some [i; 99]);
          a_hit := a_hit a; a_drop := a_drop a; a_aclref := a_aclref a; a_tcp := a_tcp a; a_fwd := a_fwd a |}
     end
@@ -185,7 +205,7 @@ Definition check_history (ts : list N) : list N :=
         match tok_counted tok_step r with
         | Some (steps, []) =>
           let a := run_steps rules rt cur (initial_state cur prev)
-                     {| a_viol := 0; a_diff := None; a_hit := false; a_drop := false; a_aclref := false;
+                     {| a_src := []; a_viol := 0; a_diff := None; a_hit := false; a_drop := false; a_aclref := false;
                         a_tcp := false; a_fwd := false |} 0 steps in
           if negb (a_viol a =? 0) then v_viol (a_viol a)
           else match a_diff a with
